@@ -350,7 +350,7 @@ impl Case {
         match label {
             "call.entered" | "put.checked" | "delete.marked" | "read.hit" => true,
             "send.enter" => matches!(job, "put" | "put_w" | "put_ttl" | "put_w_ttl"),
-            "worker.delete.after_store" | "worker.delete.after_weight" => true,
+            "worker.delete.after_store" | "worker.delete.after_weight" | "worker.put.after_admission" => true,
             l if l.starts_with("shutdown.") => true,
             _ => false,
         }
